@@ -263,7 +263,7 @@ Example C09J_reconnect_closes_subscribers :
   m_clients (run [ONewPub 1 0 false; ONewSub 2 1 0; OReconnect []]) = [1] /\
   m_pubs (run [ONewPub 1 0 false; ONewSub 2 1 0; OReconnect []]) = [].
 Proof. vm_compute. auto. Qed.
-(* the trace predicate holds on the model's traces of these histories (the general statement is not proved) *)
+(* the trace predicate holds on the model's traces of these histories (for every history: C09J_P_on_every_model_trace below) *)
 Example C09J_P_on_model_traces :
   forallb (fun ops => P_C09J (trace_of ops))
     [c09j_demo; c09j_left ++ [OReconnect []; ONewPub 1 0 false; OCloseAll 1; OCloseAll 2];
